@@ -305,6 +305,10 @@ func monC10RestartThenVerifyInvariant(s *Stream) {
 	s.Inflight(name)
 	s.Emit(name, guard(func() string {
 		accts := rtAccts()
+		// the senders hold the crisis module's constant fee (bond denomination), so that the route lookup is reached
+		oldExtra := genesisExtraCoins
+		genesisExtraCoins = sdk.NewCoins(sdk.NewInt64Coin(sdk.DefaultBondDenom, 1000000))
+		defer func() { genesisExtraCoins = oldExtra }()
 		a, err := NewChain(dbm.NewMemDB(), tmpHome(), accts, 100000, nil)
 		if err != nil {
 			return "fail #genesis " + err.Error()
